@@ -122,7 +122,9 @@ Inductive aclass :=
 | AViewerCounter           (* viewer's excluded-counter list / Active flag <> item not approved *)
 | AViewerUploader          (* viewer's verdict differs from what the uploader did at X = 0 *)
 | AViewerReportFalse       (* report view calls an item excluded that is approved (the uploader sends it) *)
-| AViewerReportStackOmitted. (* report view does not mention an unapproved stack counter of a report (fixed: a1becfe) *)
+| AViewerReportStackOmitted  (* report view does not mention an unapproved stack counter of a report (fixed: a1becfe) *)
+| AViewerChart             (* Charts section: "not present in the telemetry config" <> no configured counter belongs to the chart *)
+| AViewerChartStack.       (* ... for a chart of an approved STACK counter (finding 20: charts never consult the configured stacks) *)
 
 (* server side: report r (produced by the uploader iff from_uploader) got verdict v *)
 Definition server_check (u : upload_cfg) (from_uploader : bool) (week_ok semver_ok : bool) (r : report) (v : verdict)
@@ -265,3 +267,48 @@ Definition viewer_summary_check (u : upload_cfg) (f : cfile) (s : vsummary) : li
      | _ => []
      end
    else []).
+
+(* ---------------------------------------------------------------- viewer: the Charts section *)
+
+(* grouped(): a counter "chart:bucket" belongs to the chart named by the text
+   before its first colon (a counter without colon: by its name); a stack
+   counter to the chart named by its title.  charts(): a chart is flagged
+   "This counter is not present in the telemetry config" unless
+   HasCounter(program, chart) || HasCounterPrefix(program, chart). *)
+Definition chart_name (k : bytes) : bytes :=
+  if is_stack k then stack_title k else before_byte k ch_colon.
+
+Definition viewer_chart_active (c : config) (prog name : bytes) : bool :=
+  has_counter c prog name || has_counter_prefix c prog name.
+
+Definition file_charts (f : cfile) : list (bytes * bytes) :=
+  map (fun kv : bytes * N => (id_program (f_ident f), chart_name (fst kv))) (f_counts f).
+
+Definition viewer_charts (c : config) (files : list cfile) : list ((bytes * bytes) * bool) :=
+  map (fun pn => (pn, viewer_chart_active c (fst pn) (snd pn))) (flat_map file_charts files).
+
+(* documented meaning of "present in the config": some configured counter of
+   the program belongs to the chart (its collapsed name is chart:..., or it
+   expands to the chart's name itself), or a configured stack has that name *)
+Definition counter_chart_listedb (u : upload_cfg) (prog name : bytes) : bool :=
+  approved_counterb u prog name ||
+  existsb (fun p => beq (pc_name p) prog &&
+                    existsb (fun cc => let '(pre, _, found) := cut_byte (cc_name cc) ch_colon in
+                                       found && beq pre name) (pc_counters p)) (uc_programs u).
+Definition chart_listedb (u : upload_cfg) (prog name : bytes) : bool :=
+  counter_chart_listedb u prog name || nonempty (stack_rates u prog name).
+
+(* the items of the data that the chart (prog, name) draws *)
+Definition chart_items (files : list cfile) (prog name : bytes) : list bytes :=
+  flat_map (fun f => if beq (id_program (f_ident f)) prog
+                     then filter (fun k => beq (chart_name k) name) (map fst (f_counts f)) else []) files.
+
+(* oracle: the chart (prog, name) was shown with flag `active` *)
+Definition viewer_chart_check (u : upload_cfg) (files : list cfile) (prog name : bytes) (active : bool) : list aclass :=
+  let items := chart_items files prog name in
+  let approved_plain := existsb (fun k => negb (is_stack k) && approved_counterb u prog k) items in
+  let approved_stack := existsb (fun k => is_stack k && approved_stackb u prog k) items in
+  if negb active && approved_plain then [AViewerChart]        (* called absent from the config, yet the uploader sends a counter of it *)
+  else if negb active && approved_stack then [AViewerChartStack]
+  else if active && negb (chart_listedb u prog name) then [AViewerChart]   (* called present, yet nothing configured belongs to it *)
+  else [].
